@@ -9,6 +9,8 @@
 #include <string>
 #include <vector>
 #include <unordered_map>
+#include "soplex/spxdefines.h"
+#include "soplex/basevectors.h"
 
 namespace verif_ctl
 {
@@ -110,5 +112,18 @@ int unguarded_stoi(const char* s)
 double parses_with_atof(const char* s)
 {
    return atof(s);
+}
+
+// R05.6: a matrix-vector product collected by appending sparse columns and densified by assignment (the shape of finding F32)
+double sums_columns_by_append(const soplex::SVectorBase<double>* cols, const double* x, int n, int dim)
+{
+   soplex::DSVectorBase<double> y(dim);
+
+   for(int i = 0; i < n; ++i)
+      y.add(x[i] * cols[i]);
+
+   soplex::VectorBase<double> dense(dim);
+   dense = y;
+   return dense[0];
 }
 }
